@@ -339,7 +339,7 @@ def random(
 
     if idx_dtype:
         if can_store(idx_dtype, max(shape)):
-            ar.coords = ar.coords.astype(idx_dtype)
+            ar.coords = _index_array(ar.coords.astype(idx_dtype))
         else:
             raise ValueError(f"cannot cast array with shape {shape} to dtype {idx_dtype}.")
 
@@ -654,6 +654,14 @@ def can_store(dtype, scalar):
             return np.array(scalar, dtype=dtype) == np.array(scalar)
     except (ValueError, OverflowError):
         return False
+
+
+def _index_array(arr):
+    """Index arrays may have any integer dtype except ``uint64``: NumPy promotes ``uint64`` combined with
+    ``intp`` to ``float64``, which cannot index.  ``intp`` holds every coordinate that can be linearized."""
+    if isinstance(arr, np.ndarray) and arr.dtype == np.uint64:
+        return arr.astype(np.intp)
+    return arr
 
 
 def is_unsigned_dtype(dtype):
